@@ -40,9 +40,7 @@ class ModInfo:
                 self.funcs[node.name] = node
             elif isinstance(node, ast.ClassDef):
                 self.classes[node.name] = node
-                for sub in node.body:
-                    if isinstance(sub, ast.FunctionDef):
-                        self.funcs[f"{node.name}.{sub.name}"] = sub
+                self._index_class(node.name, node.body)
             elif isinstance(node, ast.Import):
                 for a in node.names:
                     local = a.asname or a.name.split(".")[0]
@@ -73,6 +71,18 @@ class ModInfo:
                     self._index(h.body)
                 self._index(node.body)
                 self._index(node.orelse)
+
+    def _index_class(self, cname, body):
+        for sub in body:
+            if isinstance(sub, ast.FunctionDef):
+                self.funcs[f"{cname}.{sub.name}"] = sub
+            elif isinstance(sub, ast.If):
+                # methods defined under a platform switch in the class body (posix arm wins)
+                test = ast.unparse(sub.test)
+                if "win32" in test and "!=" not in test:
+                    self._index_class(cname, sub.orelse)
+                elif "win32" in test:
+                    self._index_class(cname, sub.body)
 
     def _imp(self, module, name):
         if module == "loky" or module.startswith("loky."):
